@@ -36,7 +36,7 @@ def select_fields(fields, resources=None, regex=True):
                         if regex
                         else re.escape(selected_field)))
                     for name in list(dp_fields.keys()):
-                        if selected_field.match(name):
+                        if selected_field.fullmatch(name):
                             new_fields.append(dp_fields.pop(name))
                             configuration[resource['name']].add(name)
 
